@@ -206,3 +206,75 @@ def op_host_dumps(c):
     import marshal
     v = _plain_from_spec(c["value"])
     return {"v0": list(marshal.dumps(v, 0)), "v1": list(marshal.dumps(v, 1)), "orig": obs_value(v, True)}
+
+
+_AUDIT = {"on": False, "events": []}
+_AUDIT_INSTALLED = [False]
+
+
+def _hook(event, args):
+    if not _AUDIT["on"]:
+        return
+    if event in ("os.system", "subprocess.Popen", "os.remove", "os.rename", "os.mkdir", "os.rmdir", "os.truncate", "shutil.rmtree", "socket.connect", "ctypes.dlopen"):
+        _AUDIT["events"].append(event)
+    elif event in ("compile", "exec"):
+        # the interpreter's own import machinery compiles / executes library modules (traceback, linecache ...);
+        # what must never be compiled or executed is anything that does not come from the library or from xdis itself
+        import sys
+        try:
+            fn = args[1] if event == "compile" else args[0].co_filename
+        except Exception:
+            fn = "?"
+        fn = str(fn)
+        lib = (sys.prefix, sys.base_prefix, "/repo", "<frozen", "/root/.pyenv", "/venv", "/usr/lib/python")
+        if fn.startswith(lib):
+            return
+        if event == "compile" and fn in ("<unknown>", "<string>"):
+            # traceback.print_exc() parses the source lines of its own frames (ast.parse) to place carets:
+            # harmless unless the text being compiled comes out of the file under test
+            src = args[0]
+            if isinstance(src, str):
+                src = src.encode("utf-8", "replace")
+            data = _AUDIT.get("data", b"")
+            if not (isinstance(src, (bytes, bytearray)) and len(src) >= 4 and bytes(src) in data):
+                return
+        _AUDIT["events"].append(event + ":" + fn)
+    elif event == "import":
+        _AUDIT["events"].append("import:" + str(args[0]))
+    elif event == "open":
+        mode = args[1] if len(args) > 1 else ""
+        if isinstance(mode, str) and any(ch in mode for ch in "wax+"):
+            _AUDIT["events"].append("open-write:" + str(args[0]))
+
+
+def op_load_outcome(c):
+    """c = {"bytes": [...]}: load_module on a real file holding exactly these bytes.
+    Observation: [class, seconds*1000, n forbidden audit events] + events; class 0 = returned a 7-tuple, 1 = ImportError, 2 = other exception"""
+    import os, sys, tempfile, time
+    from xdis.load import load_module
+    if not _AUDIT_INSTALLED[0]:
+        sys.addaudithook(_hook)
+        _AUDIT_INSTALLED[0] = True
+    fd, path = tempfile.mkstemp(prefix="xdis-c11-", suffix=".pyc", dir="/var/tmp")
+    os.write(fd, bytes(c["bytes"]))
+    os.close(fd)
+    _AUDIT["events"] = []
+    _AUDIT["data"] = bytes(c["bytes"])
+    t0 = time.time()
+    cls, name = 0, ""
+    _AUDIT["on"] = True
+    try:
+        r = load_module(path)
+        if not (isinstance(r, tuple) and len(r) == 7):
+            cls, name = 2, "returned " + type(r).__name__
+    except ImportError:
+        cls = 1
+    except BaseException as e:
+        cls, name = 2, type(e).__name__
+    finally:
+        _AUDIT["on"] = False
+    dt = time.time() - t0
+    os.unlink(path)
+    allowed = ("import:traceback", "import:linecache", "import:tokenize", "import:token", "import:collections", "import:contextlib")
+    bad = [e for e in _AUDIT["events"] if not e.startswith(allowed)]
+    return {"cls": cls, "name": name, "ms": int(dt * 1000), "bad_events": bad[:5]}
